@@ -295,6 +295,13 @@ DISTURB = [
     "LOOP ({'k': [5, Item_()]}, {'k': [5, 3]}, {'k': [5, 3]}) == snapshot({'k': [1, 2]})",
     "LOOP (Item_(), 4, 3) <= snapshot(5)",
     "LOOP (Item_(), 4, 3) in snapshot([5])",
+    # user-controlled arguments outside the model: whatever is approved, the statement must come back verbatim (C10)
+    "KEEP assert 'b' <= snapshot(f\"{'a'}\")",
+    "KEEP assert 'a' >= snapshot(f\"{'b'}\")",
+    "KEEP assert 'ax' == snapshot(f\"{'b'}x\")",
+    "KEEP assert snapshot({'k': f\"{'a'}\"})['k'] >= 'b'",
+    "KEEP assert [1, 5] == snapshot([Is(1), Is(2)])",
+    "KEEP s_ = snapshot([f\"{'a'}\", Is(0+1)])",
 ]
 DISTURB_DEF = """
 class Item_:
@@ -378,7 +385,7 @@ def render(case):
             lines.append(DISTURB_DEF.replace("    try:\n        %s\n    except Exception:\n        pass\n",
                                              "    for v_ in %s):\n        try:\n            v_ %s\n        except Exception:\n            pass\n" % (vals, rest)))
         else:
-            lines.append(DISTURB_DEF % d)
+            lines.append(DISTURB_DEF % (d[5:] if d.startswith("KEEP ") else d))
     return "\n".join(lines) + "\n", events, boundaries
 
 
@@ -598,6 +605,9 @@ def oracle(case, obs):
     if case.get("disturb") and obs.get("plain"):
         pl = obs["plain"]
         what = DISTURB[case["disturb"]["kind"]]
+        if what.startswith("KEEP ") and not (obs["collect_errors"] or obs["apply_error"] or obs["import_error"]) and what[5:] not in (obs.get("after") or ""):
+            fails.append(("C10", "unmanaged_untouched", f"approved {sorted(approved)}: the user-controlled argument in `{what[5:]}` was altered: "
+                          + repr([l for l in (obs.get("after") or "").splitlines() if "snapshot" in l][-1:])))
         if obs["collect_errors"] or obs["apply_error"] or obs["import_error"]:
             if not any(pl["errors"]):
                 fails.append(("C18", "finish_total", f"with the raising comparison `{what}` in test {case['disturb']['test']}: {obs['collect_errors'] or obs['apply_error'] or obs['import_error']}"))
